@@ -16,14 +16,31 @@ IS_TESTS = {
 class Ctx:
     """a body analysed in one world (set of pruned edges) with optional parameter/capture bindings."""
 
-    def __init__(self, body, removed=frozenset(), params=None, captures=None):
+    def __init__(self, body, removed=frozenset(), params=None, captures=None, assumptions=()):
         self.body = body
         self.removed = frozenset(removed)
         self.T = Terms(body, removed, captures=captures, params=params)
         self._atoms = None
+        self.assumptions = tuple(assumptions)  # ((predicate on a boolean term, truth value), ...)
 
     def with_removed(self, more):
-        return Ctx(self.body, self.removed | frozenset(more), self.T.params, self.T.captures)
+        return Ctx(self.body, self.removed | frozenset(more), self.T.params, self.T.captures, self.assumptions)
+
+    def assume_bool(self, pred, value):
+        """world assumption: every boolean term accepted by `pred` has truth value `value`
+        (used for tests that are stored in a variable / merged before being branched on)."""
+        return Ctx(self.body, self.removed, self.T.params, self.T.captures, self.assumptions + ((pred, value),))
+
+    def _assumed(self, t):
+        for pred, value in self.assumptions:
+            neg = False
+            x = t
+            while x[0] == "un" and x[1] == "Not":
+                x = x[2]
+                neg = not neg
+            if pred(x):
+                return ("const", "bool", value != neg)
+        return t
 
     def determined_edges(self):
         """edges that cannot be taken because, in this (pruned) graph, the tested value is a
@@ -44,7 +61,7 @@ class Ctx:
             elif atom[0] == "bool":
                 t = atom[1]
                 alts = t[1] if t[0] == "phi" else (t,)
-                alts = tuple(_known_bool(a) for a in alts)
+                alts = tuple(_known_bool(self._assumed(a)) for a in alts)
                 if all(a[0] == "const" and a[1] == "bool" for a in alts):
                     vs = set(a[2] for a in alts)
                     good = [tg for v in vs for tg in atom[2][v]]
